@@ -1,0 +1,7 @@
+//go:build !verif
+
+package compact
+
+type verifState struct{}
+
+func (cm *Manager) verifPaused() bool { return false }
